@@ -273,7 +273,19 @@ func commitScenario(a schedArg) (body func() string, baseline string, err error)
 			if _, err := fm.Set(CompareValue, GetHashInput, tu.Uint64Value(1), tu.Uint64Value(2)); err != nil {
 				return nil, err
 			}
-			w.failRoots = []atree.SlabID{fa.SlabID(), fm.SlabID()}
+			// ... and a root whose INLINED child's type info cannot be encoded (the shared table of inlined extra data)
+			holder, err := atree.NewArray(w.St, w.Addr, tu.NewSimpleTypeInfo(9))
+			if err != nil {
+				return nil, err
+			}
+			child, err := atree.NewArray(w.St, w.Addr, failTI{})
+			if err != nil {
+				return nil, err
+			}
+			if err := holder.Append(child); err != nil {
+				return nil, err
+			}
+			w.failRoots = []atree.SlabID{fa.SlabID(), fm.SlabID(), holder.SlabID()}
 		}
 		return w, nil
 	}
